@@ -853,8 +853,14 @@ class World:
                 # an os.DirEntry as handed out by os.scandir(): an os.PathLike that is neither str nor Path
                 node = self.fs.h_node(self.files[f])
                 if node is not None and not node.is_dir:
+                    # (a client may keep the entry objects of one directory listing for a while)
                     from .simfs import _DirEntry
-                    kw['path'] = _DirEntry(self.fs, os.path.dirname(self.files[f]), os.path.basename(self.files[f]), node)
+                    key = ('direntry', self.files[f], proc.incarnation)
+                    ent = proc.fio.get(key)
+                    if ent is None or op.get('direntry') == 'new':
+                        ent = proc.fio[key] = _DirEntry(self.fs, os.path.dirname(self.files[f]),
+                                                         os.path.basename(self.files[f]), node)
+                    kw['path'] = ent
             if 'code' in op:
                 kw['code'] = op['code'].encode('utf-8', 'surrogatepass') if op.get('as_bytes') else op['code']
             elif op.get('givecode') and proc.ctx.start is not None and proc.ctx.start[0] is not None:
